@@ -279,6 +279,9 @@ func init() {
 	regModel(&ModelGen{Name: "StorageTrapAll",
 		Params: func(r *Rng) []float64 { return []float64{} },
 		Inputs: func(r *Rng, T int, p []float64) [][]float64 {
+			if r.Chance(0.03) { // malformed: empty series — the kernel indexes element 0 and panics
+				T = 0
+			}
 			flow, vol := flowVolume(r, T, 86400)
 			return [][]float64{loadSeries(r, T), Series(r, T, 10), flow, vol}
 		},
